@@ -17,6 +17,7 @@ Not decided: order independence of ncon with swaps (termination/completeness of 
 from __future__ import annotations
 
 import ast
+import re
 import copy
 
 from ..core import astutil as A
@@ -324,6 +325,57 @@ def run_W9(chk):
     chk.require(n >= 2, f"_resolve_bad_swaps: {n} jump call sites found (2 confirmed by hand)")
 
 
+def run_W10(chk):
+    """W10: the list of requested swaps keeps its multiplicities on the way from the argument of ncon / einsum to the resolver.  Swaps are
+    toggles (the resolver keeps the pending ones in a set and adds or removes a pair each time it is named), so a pair listed twice cancels;
+    passing the list through a set -- or any other de-duplication -- applies it once."""
+    prog = chk.prog
+    chk.rule("W10", "the requested swaps reach the resolver with their multiplicities (no set / de-duplication on the way)", floor=2)
+    for name in ("ncon", "einsum"):
+        f = prog.func("yastn.tensor._einsum", name)
+        defs = [n for n in A.walk_local(f.node) if isinstance(n, ast.Assign) and any(isinstance(t_, ast.Name) and t_.id == "swap" for t_ in n.targets)]
+        chk.require(defs or name == "einsum", f"{name}: the normalisation of `swap` was not found")
+        for d in defs:
+            dedup = [x for x in ast.walk(d.value) if isinstance(x, (ast.Set, ast.SetComp)) or
+                     (isinstance(x, ast.Call) and (A.call_name(x) or "").split(".")[-1] in ("set", "frozenset", "fromkeys", "unique"))]
+            chk.verdict("W10", (f, d), f"{name}: `{A.short(d, 70)}`", False if dedup else True,
+                        f"{name}(): `{A.short(d, 80)}` passes the requested swaps through `{A.short(dedup[0], 40) if dedup else ''}`: repeated pairs collapse into "
+                        f"one, but a swap named twice (in either orientation) has to cancel -- the pair is applied once instead of not at all")
+
+
+def run_W11(chk):
+    """W11: fkron re-orders `sites` and `operators` by the same list (`application_order`): the two comprehensions select by the same
+    expression of the loop variable.  `sites[ind]` next to `operators[ind]` pairs operator and site as given; `sites.index(ind)` is the
+    inverse map and pairs them differently for every permutation that is not its own inverse."""
+    prog = chk.prog
+    chk.rule("W11", "fkron re-orders sites and operators by application_order in the same way", floor=0)
+    f = prog.func(CON, "fkron")
+    inl = A.Inliner(f.node)
+    sel = {}
+    for n in A.walk_local(f.node):
+        if isinstance(n, ast.Assign) and isinstance(n.targets[0], ast.Name) and n.targets[0].id in ("sites", "operators") \
+                and isinstance(n.value, (ast.ListComp, ast.GeneratorExp)) or \
+                (isinstance(n, ast.Assign) and isinstance(n.targets[0], ast.Name) and n.targets[0].id in ("sites", "operators")
+                 and isinstance(n.value, ast.Call) and n.value.args and isinstance(n.value.args[0], (ast.ListComp, ast.GeneratorExp))):
+            comp = n.value if isinstance(n.value, (ast.ListComp, ast.GeneratorExp)) else n.value.args[0]
+            g = comp.generators[0]
+            if "application_order" not in A.text(inl.expand(g.iter)):
+                continue
+            X = n.targets[0].id
+            shape = A.text(comp.elt).replace(X, "X")
+            if isinstance(g.target, ast.Name):
+                shape = re.sub(rf"\b{g.target.id}\b", "i", shape)
+            sel[X] = (n, shape, A.text(inl.expand(g.iter)))
+    if len(sel) != 2:
+        chk.note("W11: fkron does not re-order `sites` and `operators` by two comprehensions over application_order (other spelling): not decided")
+        return
+    (n1, s1, i1), (n2, s2, i2) = sel["sites"], sel["operators"]
+    same = s1 == s2 and i1 == i2
+    chk.verdict("W11", (f, n1), f"fkron: sites by `{s1}` over `{i1}`, operators by `{s2}` over `{i2}`", True if same else False,
+                f"fkron(): `{A.short(n1, 60)}` and `{A.short(n2, 60)}` re-order the two parallel lists differently (`{s1}` vs `{s2}`): operators are paired "
+                f"with other sites than the caller gave (X.index(i) is the inverse of X[i]; they agree only for permutations that are their own inverse)")
+
+
 def run_W8(chk):
     """W8: pending swaps form a Z2 set -- a crossing applied twice is no crossing.  In _resolve_bad_swaps every insertion into the set of
     pending swaps is a *toggle*: `symmetric_difference_update({k})` / `^=`, or `add(k)` on the branch where `k` was tested to be absent
@@ -552,6 +604,8 @@ def run(chk):
     run_W6(chk)
     run_W8(chk)
     run_W9(chk)
+    run_W10(chk)
+    run_W11(chk)
     sg = prog.func(CON, "swap_gate")
     msg = prog.func(CON, "_meta_swap_gate")
     msgc = prog.func(CON, "_meta_swap_gate_charge")
@@ -712,6 +766,8 @@ def run(chk):
 
 
 MUTANTS = [
+    ('fkron re-orders sites by the inverse map', 'yastn/tensor/_contractions.py', '        sites = [sites[ind] for ind in application_order[::-1]]', '        sites = [sites.index(ind) for ind in application_order[::-1]]', 'W11'),
+    ('ncon de-duplicates the requested swaps', 'yastn/tensor/_einsum.py', '    swap = tuple(_clear_axes(*swap)) if swap is not None else ()', '    swap = tuple(sorted({tuple(sorted(sw)) for sw in _clear_axes(*swap)})) if swap is not None else ()', 'W10'),
     ('all crossings of a leg discarded before a single-leg jump', 'yastn/tensor/_einsum.py', '                _key, partner = tp[C][ax][0]\n                z2.discard(_key)\n', '                _, partner = tp[C][ax][0]\n                for _key, _ in tp[C][ax]:\n                    z2.discard(_key)\n', 'W9'),
     ('swap inserted instead of toggled', 'yastn/tensor/_einsum.py', '        z2.symmetric_difference_update({_canonical(edge_a, edge_b)})', '        z2.add(_canonical(edge_a, edge_b))', 'W8'),
     ('inverse permutation in swap_gate(charge=)', 'yastn/tensor/_contractions.py', '        axes = tuple(a.trans[ax] for ax in axes)', '        axes = tuple(a.trans.index(ax) for ax in axes)', 'W7'),
